@@ -10,6 +10,8 @@ most one atom in every segment.
 -/
 import OratioModel
 import OratioProofs.Lemmas.Sweep
+import OratioProofs.Lemmas.SweepInv
+import OratioProofs.Lemmas.SweepUsage
 
 namespace Oratio
 open Sweep
@@ -17,19 +19,34 @@ open Sweep
 def AtomsOk (as : List TAtom) : Prop := (as.map (·.id)).Nodup ∧ ∀ a ∈ as, tle a.start a.stop = true
 
 theorem C04_sweep_empty_iff_no_overlap (as : List TAtom) (h : AtomsOk as) :
-    svPeaks as = [] ↔ ∀ a ∈ as, ∀ b ∈ as, a.id ≠ b.id → overlaps a b = false := by sorry
+    svPeaks as = [] ↔ ∀ a ∈ as, ∀ b ∈ as, a.id ≠ b.id → overlaps a b = false := by
+  constructor
+  · intro hnil a ha b hb hab
+    cases ho : overlaps a b with
+    | false => rfl
+    | true =>
+      rcases svPeaks_reports h.1 h.2 ha hb hab ho with hm | hm <;> (rw [hnil] at hm; cases hm)
+  · intro hno
+    rw [List.eq_nil_iff_forall_not_mem]
+    rintro ⟨i, j⟩ hp
+    obtain ⟨a, ha, b, hb, hai, hbj, hij, ho⟩ := svPeaks_sound h.1 h.2 hp
+    have := hno a ha b hb (by rw [hai, hbj]; exact hij)
+    rw [this] at ho; cases ho
 
 theorem C04_reports_every_overlapping_pair (as : List TAtom) (h : AtomsOk as) (a b : TAtom)
     (ha : a ∈ as) (hb : b ∈ as) (hab : a.id ≠ b.id) (ho : overlaps a b = true) :
-    (a.id, b.id) ∈ svPeaks as ∨ (b.id, a.id) ∈ svPeaks as := by sorry
+    (a.id, b.id) ∈ svPeaks as ∨ (b.id, a.id) ∈ svPeaks as :=
+  svPeaks_reports h.1 h.2 ha hb hab ho
 
 /-- every pair the sweep reports really overlaps -/
 theorem C04_reported_pairs_overlap (as : List TAtom) (h : AtomsOk as) (i j : Nat) (hp : (i, j) ∈ svPeaks as) :
-    ∃ a ∈ as, ∃ b ∈ as, a.id = i ∧ b.id = j ∧ i ≠ j ∧ overlaps a b = true := by sorry
+    ∃ a ∈ as, ∃ b ∈ as, a.id = i ∧ b.id = j ∧ i ≠ j ∧ overlaps a b = true :=
+  svPeaks_sound h.1 h.2 hp
 
 /-- the ordering choices the planner offers separate the two atoms -/
 theorem C04_order_resolvers_separate (a b : TAtom) (ha : tle a.start a.stop = true) (hb : tle b.start b.stop = true)
-    (h : tle a.stop b.start = true ∨ tle b.stop a.start = true) : overlaps a b = false := by sorry
+    (h : tle a.stop b.start = true ∨ tle b.stop a.start = true) : overlaps a b = false :=
+  overlaps_false_of_separate h
 
 /-- the timeline covers [origin, horizon] with consecutive segments; an atom appears in a segment
     exactly when it covers it; hence without overlaps no segment shows two atoms -/
@@ -37,8 +54,24 @@ theorem C04_timeline_segments (as : List TAtom) (h : AtomsOk as) (o hz : Time)
     (hb : ∀ a ∈ as, tle o a.start = true ∧ tle a.stop hz = true) (hoh : tle o hz = true) :
     (∀ s ∈ svTimeline as o hz, tlt s.lo s.hi = true ∧
        ∀ a ∈ as, (a.id ∈ s.atoms ↔ (tle a.start s.lo = true ∧ tle s.hi a.stop = true ∧ tlt a.start a.stop = true))) ∧
-    ((∀ a ∈ as, ∀ b ∈ as, a.id ≠ b.id → overlaps a b = false) → ∀ s ∈ svTimeline as o hz, s.atoms.length ≤ 1) := by sorry
+    ((∀ a ∈ as, ∀ b ∈ as, a.id ≠ b.id → overlaps a b = false) → ∀ s ∈ svTimeline as o hz, s.atoms.length ≤ 1) := by
+  obtain ⟨hnd, hle⟩ := h
+  have key := svTimeline_spec hnd hle o hz
+  constructor
+  · intro s hs
+    obtain ⟨hlt, hA, hG, _⟩ := key s hs
+    refine ⟨hlt, fun a ha => ?_⟩
+    rw [hA.mem_iff hnd ha, covers_lo_iff hG hlt ha]
+  · intro hno s hs
+    obtain ⟨_, hA, _, hN⟩ := key s hs
+    apply length_le_one_of_nodup hN
+    intro i hi j hj
+    obtain ⟨a, ha, hai, hca⟩ := (hA i).1 hi
+    obtain ⟨b, hb, hbj, hcb⟩ := (hA j).1 hj
+    by_contra hij
+    have := hno a ha b hb (by rw [hai, hbj]; exact hij)
+    rw [overlaps_of_covers hca hcb] at this; cases this
 
-example : svPeaks [⟨1, (0, 0), (2, 0), (0, 0)⟩, ⟨2, (2, 0), (2, 0), (0, 0)⟩, ⟨3, (1, 0), (3, 0), (0, 0)⟩] = [(1, 3)] := by sorry
+example : svPeaks [⟨1, (0, 0), (2, 0), (0, 0)⟩, ⟨2, (2, 0), (2, 0), (0, 0)⟩, ⟨3, (1, 0), (3, 0), (0, 0)⟩] = [(1, 3)] := by decide +kernel
 
 end Oratio
